@@ -220,3 +220,25 @@ MUTATIONS += [
      "        if self._is_exc:\n            self._is_exc = False\n            raise self._obj\n        else:\n            return self._obj"),
     ("expired-property-ignores-ready", ["C15"], A, "        return not self._is_ready and self._ttl.expired()", "        return self._ttl.expired()"),
 ]
+
+MUTATIONS += [
+    # ---- C11: endings
+    ("closed-flag-after-hook", ["C11"], P, "        self._closed = True\n        self._channel.close()\n        self._local_root.on_disconnect(self)",
+     "        self._channel.close()\n        self._local_root.on_disconnect(self)\n        self._closed = True"),
+    ("cleanup-guard-inverted", ["C11"], P, "        if self._closed and not _anyway:\n            return", "        if not self._closed and not _anyway:\n            return"),
+    ("serve-not-closing-on-eof", ["C11"], P, "        except EOFError:\n            self.close()\n            raise\n        finally:\n            self._recvlock.release()",
+     "        except EOFError:\n            raise\n        finally:\n            self._recvlock.release()"),
+    ("serve-all-no-finally-close", ["C11", "C17"], P, "        except EOFError:\n            pass\n        finally:\n            self.close()\n\n    def serve_threaded",
+     "        except EOFError:\n            pass\n\n    def serve_threaded"),
+    ("request-callbacks-not-cleared", ["C11"], P, "        self._request_callbacks.clear()\n", "        pass\n"),
+    ("close-not-swallowing-eof", ["C11"], P, "        except EOFError:\n            pass\n        except Exception:\n            if not self._config[\"close_catchall\"]:",
+     "        except ZeroDivisionError:\n            pass\n        except Exception:\n            if not self._config[\"close_catchall\"]:"),
+    ("close-without-closed-guard", ["C11"], P, "        if self._closed:\n            return\n        try:\n            self._closed = True", "        try:\n            self._closed = True"),
+    ("handle-close-cleanup-anyway", ["C11"], P, "    def _handle_close(self):  # request handler\n        self._cleanup()", "    def _handle_close(self):  # request handler\n        self._cleanup(_anyway=False)"),
+]
+
+MUTATIONS += [
+    ("close-closed-flag-set-late", ["C11"], P, "        try:\n            self._closed = True\n            if self._config.get(\"before_closed\"):", "        try:\n            if self._config.get(\"before_closed\"):"),
+    ("serve-notify-only-after-receive", ["C11", "C14"], P, "        finally:\n            self._recvlock.release()\n            with self._recv_event:\n                self._recv_event.notify_all()\n        try:\n            self._dispatch(data)",
+     "        finally:\n            self._recvlock.release()\n        with self._recv_event:\n            self._recv_event.notify_all()\n        try:\n            self._dispatch(data)"),
+]
